@@ -29,7 +29,7 @@ fn sop(focus: Focus) -> BoxedStrategy<SOp> {
     let g = 0u8..N_GROUPS;
     let b = any::<u8>();
     let (w_group, w_msg, w_proc, w_welcome, w_snap, w_mls, w_page, w_ident) = match focus {
-        Focus::Differential => (6, 8, 6, 4, 4, 6, 4, 3),
+        Focus::Differential => (6, 8, 6, 4, 6, 6, 4, 3),
         Focus::Rollback => (6, 4, 3, 2, 14, 10, 1, 4),
         Focus::Ordering => (3, 20, 1, 0, 1, 0, 12, 0),
     };
@@ -121,6 +121,16 @@ pub fn case_strategy(focus: Focus, len: std::ops::Range<usize>) -> BoxedStrategy
                 StoreCase { ops: pre }
             })
             .boxed();
+    }
+    if focus == Focus::Differential {
+        // two snapshot names only, so that a rollback usually finds the snapshot it names
+        let narrow = |op: SOp| match op {
+            SOp::Snapshot { g, name } => SOp::Snapshot { g, name: name % 2 },
+            SOp::Rollback { g, name } => SOp::Rollback { g, name: name % 2 },
+            SOp::Release { g, name } => SOp::Release { g, name: name % 2 },
+            o => o,
+        };
+        return prop::collection::vec(sop(focus).prop_map(narrow), len).prop_map(|ops| StoreCase { ops }).boxed();
     }
     prop::collection::vec(sop(focus), len).prop_map(|ops| StoreCase { ops }).boxed()
 }
@@ -387,7 +397,7 @@ pub fn main(args: &Args, focus: Focus) -> i32 {
     };
     let _ = (rule, assumptions);
     let rule = match focus {
-        Focus::Differential => "sequences of storage-trait calls over small key pools (3 groups + 1 never-created, 6 message ids reused across groups, 5 wrapper ids, timestamps {t,t,t+1}), every result and a full dump of every read compared three-way (contract model / memory / SQLite) after every step; non-trivial = an overwrite, a tie on both timestamps, an id reused across groups or a boundary pagination value; distinct = distinct sequences",
+        Focus::Differential => "sequences of storage-trait calls over small key pools (3 groups + 1 never-created, 6 message ids reused across groups, 5 wrapper ids, timestamps {t,t,t+1}), every result and a full dump of every read compared three-way (contract model / memory / SQLite) after every step; a quarter of the sequences are snapshot-heavy (create / rollback / release / prune on a populated store); non-trivial = an overwrite, a tie on both timestamps, an id reused across groups or a boundary pagination value; distinct = distinct sequences",
         Focus::Rollback => "storage-call sequences dominated by snapshot create / rollback / release / prune on 1..3 groups, nested and out of order, with re-taken and unknown names; after every step the full dump of both backends must equal the model's (slice restored, snapshot consumed, everything else untouched); non-trivial = a rollback to an existing snapshot after the group changed, with another group or messages of this group present; distinct = distinct sequences",
         Focus::Ordering => "message sets with colliding created_at / processed_at and listings with every (limit, offset, sort) incl. 0, MAX, MAX+1, usize::MAX on both backends: documented order, repeatability, page partitioning for limits 1..3, last_message = head; non-trivial = a tie on created_at; distinct = distinct sequences",
     };
@@ -408,7 +418,15 @@ pub fn main(args: &Args, focus: Focus) -> i32 {
         args,
         spec,
         RunPlan { cases, workers: 16 },
-        || case_strategy(focus, len.clone()),
+        || {
+            if focus == Focus::Differential {
+                // the same-store claim covers the snapshot API as well: a quarter of the sequences
+                // come from the snapshot-heavy generator (populated store, few names)
+                prop_oneof![3 => case_strategy(Focus::Differential, len.clone()), 1 => case_strategy(Focus::Rollback, len.clone())].boxed()
+            } else {
+                case_strategy(focus, len.clone())
+            }
+        },
         move |c: &StoreCase, m| exec(c, m, focus),
     )
 }
